@@ -10,6 +10,7 @@ namespace Mpire.Dispatch
 structure Assign where
   taskIdx       : Nat := 0
   lastCompleted : List Nat := []        -- deque of worker ids that delivered a result batch
+  applyIdx      : Nat := 0              -- with order_tasks, apply tasks are handed out in an order of their own (repair D32)
   deriving Repr, DecidableEq
 
 /-- `_get_task_worker_id()` -/
@@ -20,10 +21,16 @@ def assign (orderTasks : Bool) (n : Nat) (a : Assign) : Nat × Assign :=
 /-- `get_results` appends the worker id of every received batch -/
 def completed (w : Nat) (a : Assign) : Assign := { a with lastCompleted := a.lastCompleted ++ [w] }
 
-/-- `reset_progress()` -/
+/-- `reset_progress()` (the apply order is not part of a call's progress) -/
+def resetOf (a : Assign) : Assign := { applyIdx := a.applyIdx }
 def reset : Assign := {}
 
-inductive AOp | assign | completed (w : Nat) | reset
+/-- `add_apply_task`: which worker an apply task goes to.  `shared`: the pinned code, where apply tasks used the chunk counter. -/
+def assignApply (shared : Bool) (orderTasks : Bool) (n : Nat) (a : Assign) : Nat × Assign :=
+  if orderTasks && !shared then (a.applyIdx % n, { a with applyIdx := a.applyIdx + 1 })
+  else assign orderTasks n a
+
+inductive AOp | assign | completed (w : Nat) | reset | apply
   deriving Repr, DecidableEq
 
 /-- run a sequence of operations; returns the workers chosen by the `assign` operations, in order, each tagged with the
@@ -32,7 +39,16 @@ def runOps (orderTasks : Bool) (n : Nat) : Assign → Nat → List AOp → List 
   | _, _, [] => []
   | a, i, .assign :: ops => let (w, a') := assign orderTasks n a; (i, w) :: runOps orderTasks n a' (i + 1) ops
   | a, i, .completed w :: ops => runOps orderTasks n (completed w a) i ops
-  | _, _, .reset :: ops => runOps orderTasks n reset 0 ops
+  | a, _, .reset :: ops => runOps orderTasks n (resetOf a) 0 ops
+  | a, i, .apply :: ops => runOps orderTasks n (assignApply false orderTasks n a).2 i ops
+
+/-- the same with the pinned code's shared counter -/
+def runOpsPinned (n : Nat) : Assign → Nat → List AOp → List (Nat × Nat)
+  | _, _, [] => []
+  | a, i, .assign :: ops => let (w, a') := assign true n a; (i, w) :: runOpsPinned n a' (i + 1) ops
+  | a, i, .completed w :: ops => runOpsPinned n (completed w a) i ops
+  | a, _, .reset :: ops => runOpsPinned n (resetOf a) 0 ops
+  | a, i, .apply :: ops => runOpsPinned n (assignApply true true n a).2 i ops
 
 /-! ## The dispatch loop with bounded look-ahead -/
 
